@@ -27,6 +27,7 @@ type c07Case struct {
 	CertState string `json:"cert_state"`     // "", "empty", "garbage"
 	Recip     string `json:"recipient_cert"` // "", "KS", "KX", "garbage"
 	DataAlg   int    `json:"data_alg"`
+	Detached  bool   `json:"detached_key,omitempty"`
 }
 
 func c07Spec(c c07Case, encrypted bool) idp.ResponseSpec {
@@ -44,6 +45,9 @@ func c07Spec(c c07Case, encrypted bool) idp.ResponseSpec {
 	}
 	if encrypted {
 		a.Encrypt = &idp.EncSpec{DataAlg: idp.AllDataAlgs[c.DataAlg], RecipCert: c.Recip}
+		if c.Detached {
+			a.Encrypt.Placement = "detached"
+		}
 	}
 	return r
 }
@@ -143,7 +147,7 @@ func c07Replay(raw json.RawMessage) ([]string, string) {
 }
 
 func c07Run(r *mc.Run) {
-	r.Rule = "Part A: the attacker BFS and tree enumeration of C01 (encrypt operator over 8 algorithm/recipient variants at every assertion; X(G)/X(E) tree labels), judged by the pool and direct-child invariants. Part B: full product placement(2) x ValidateEncryptionCert(2) x clock position(11) x SP certificate state(3) x recipient certificate(4) x data algorithm(5). non-trivial = decryption was attempted (an EncryptedAssertion reached the decrypt step) or the state was accepted; distinct = distinct (input, configuration)"
+	r.Rule = "Part A: the attacker BFS and tree enumeration of C01 (encrypt operator over 8 algorithm/recipient variants at every assertion; X(G)/X(E) tree labels), judged by the pool and direct-child invariants. Part B: full product placement(2) x ValidateEncryptionCert(2) x clock position(11) x SP certificate state(3) x recipient certificate(4) x data algorithm(5) x EncryptedKey placement(2: inline, detached). non-trivial = decryption was attempted (an EncryptedAssertion reached the decrypt step) or the state was accepted; distinct = distinct (input, configuration)"
 	r.Assume("RSA/ECDSA unforgeable", "the harness's own XML-Enc encryptor/decryptor (idp/enc.go)")
 	var cases []c07Case
 	n, _ := mc.Enumerate(-1, r.Expired, func(ch *mc.Chooser) {
@@ -154,6 +158,7 @@ func c07Run(r *mc.Run) {
 		c.CertState = []string{"", "empty", "garbage"}[ch.Choose("certstate", 3)]
 		c.Recip = []string{"", "KS", "KX", "garbage"}[ch.Choose("recip", 4)]
 		c.DataAlg = ch.Choose("dataalg", len(idp.AllDataAlgs))
+		c.Detached = ch.Bool("detached")
 		cases = append(cases, c)
 	})
 	r.Set("partB_choice_vectors", n)
@@ -178,7 +183,7 @@ func c07Run(r *mc.Run) {
 	groups := map[string][]c07Case{}
 	var order []string
 	for _, c := range cases {
-		k := fmt.Sprintf("%s/%s/%d", c.Placement, c.Recip, c.DataAlg)
+		k := fmt.Sprintf("%s/%s/%d/%v", c.Placement, c.Recip, c.DataAlg, c.Detached)
 		if _, ok := groups[k]; !ok {
 			order = append(order, k)
 		}
